@@ -182,7 +182,7 @@ func init() {
 func init() {
 	properties["C06"] = Property{
 		Level: "fault_enumeration",
-		Rule:  "generated histories of 10-23 operations (AddFact with ttl / expires / deleteWith, AddRule, RemFact, RemRule, EnableRule, SetParents, Clear) for state in {indexed, linear} x storage in {memory, bolt}; per history ALL of: a reload point after every prefix (live vs rebuilt location: per-id values, expiry, probe searches, dispatch, rules, parents, size; stored form of expiring items), a crash point after EVERY storage write (memory: deep snapshot; bolt: a sub-process SIGKILLed right after the write, file reopened; quick samples 4-5 bolt points per history, thorough all) judged per id (old or new value), and a fault point for EVERY storage call (the issuing operation must return an error); plus an aliasing canary for data handed out by Load (bolt: own sub-process); one case = one (history, point); non-trivial = the interrupted / last operation changed >=1 id (fault points: always); distinct by canonical JSON of (state, history, point); histories include replacements that indexed state refuses (unindexable `when`) over existing ids; at every fault point on memory storage the live location is compared with a reloaded one BEFORE the retry (a failed operation is applied to both or to neither)",
+		Rule:  "generated histories of 10-23 operations (AddFact with ttl / expires / deleteWith, AddRule, RemFact, RemRule, EnableRule, SetParents, Clear, Delete) for state in {indexed, linear} x storage in {memory, bolt}; per history ALL of: a reload point after every prefix (live vs rebuilt location: per-id values, expiry, probe searches, dispatch, rules, parents, size; stored form of expiring items), a crash point after EVERY storage write (memory: deep snapshot; bolt: a sub-process SIGKILLed right after the write, file reopened; quick samples 4-5 bolt points per history, thorough all) judged per id (old or new value), and a fault point for EVERY storage call (the issuing operation must return an error); plus an aliasing canary for data handed out by Load (bolt: own sub-process); one case = one (history, point); non-trivial = the interrupted / last operation changed >=1 id (fault points: always); distinct by canonical JSON of (state, history, point); histories include replacements that indexed state refuses (unindexable `when`) over existing ids; at every fault point on memory storage the live location is compared with a reloaded one BEFORE the retry (a failed operation is applied to both or to neither)",
 		Floor: [2]int{500, 5000},
 		Assumptions: []string{"torn writes inside one bolt transaction are bolt's guarantee (trusted)", "Cassandra / DynamoDB back ends are out of reach offline", "the live location's own per-id values before and after an operation are the reference for crash points (their agreement with a reload is established by the reload points)"},
 		Stages: []Stage{
